@@ -454,7 +454,28 @@ fn tcp_segmentation<T: Ty>(rng: &mut Rng, rep: &mut Report) {
     let n = if full_output { cap + rng.range(1, 40) } else { rng.range(1, 600) };
     let data: Vec<T> = (0..n).map(|_| T::from_bits(rng)).collect();
     let bytes = serialize_all(&data);
-    let splits = if full_output { let mut v = vec![64usize; bytes.len() / 64]; if bytes.len() % 64 > 0 { v.push(bytes.len() % 64); } v } else { gen_splits(rng, bytes.len(), T::size()) };
+    // `one_slot`: the output is held until one slot is free, and exactly then a
+    // read ends inside a sample (the partial sample is pending with one slot left).
+    let one_slot = full_output && T::size() > 1 && rng.chance(1, 2);
+    let chunks = |len: usize| -> Vec<usize> {
+        let mut v = vec![64usize; len / 64];
+        if len % 64 > 0 {
+            v.push(len % 64);
+        }
+        v
+    };
+    let splits = if one_slot {
+        let head = (cap - 1) * T::size();
+        let mut v = chunks(head);
+        v.push(T::size() - 1);
+        v.extend(chunks(bytes.len() - head - (T::size() - 1)));
+        rep.count("tcp_runs_partial_sample_with_one_output_slot_left", 1);
+        v
+    } else if full_output {
+        chunks(bytes.len())
+    } else {
+        gen_splits(rng, bytes.len(), T::size())
+    };
     let mut hold_output = full_output;
     let replay = json!({"part": "tcp", "type": T::NAME, "n": n, "output_left_full_once": full_output, "splits_head": splits.iter().take(12).collect::<Vec<_>>()});
     rep.count("tcp_runs", 1);
@@ -541,6 +562,9 @@ fn tcp_segmentation<T: Ty>(rng: &mut Rng, rep: &mut Report) {
     // Pump what is still in the socket (reads are limited by free output space).
     // Safe against blocking: a call is made only while at least one whole
     // sample's worth of written bytes has not come out yet.
+    // Everything has been written: close our sending side, so that a source that
+    // has lost count of the bytes sees end-of-stream instead of blocking in read().
+    let _ = conn.shutdown(std::net::Shutdown::Write);
     for _ in 0..100_000 {
         let in_stream = o.read_buf().unwrap().0.len();
         if bytes.len() < (got.len() + in_stream + 1) * T::size() {
@@ -550,8 +574,9 @@ fn tcp_segmentation<T: Ty>(rng: &mut Rng, rep: &mut Report) {
         got.extend_from_slice(rb.slice());
         let l = rb.len();
         rb.consume(l);
-        match catch(|| src.work().map(|_| ())) {
-            Ok(Ok(())) => {}
+        match catch(|| src.work().map(|r| matches!(r, rustradio::block::BlockRet::EOF))) {
+            Ok(Ok(false)) => {}
+            Ok(Ok(true)) => break,
             other => {
                 rep.violation(format!("C14|TcpSource<{}>|error-on-split-read", T::NAME), format!("{other:?}"), replay);
                 return;
